@@ -22,6 +22,7 @@ R6  layering: atom::apply_force() is called only from the atom-group layer (atom
     group_force_object), which rotates forces back to the laboratory frame and adds the forces on the fitting group
 R12 the winner of a search loop is reset at every evaluation
 R13 the scalar and the non-scalar branch of a value-type dispatch keep one sign convention
+R14 a helper's compute() refreshes the derivative it hands out whenever it refreshes the value
 R11 value and force of a per-coordinate vector component use the same element <-> coordinate map
 R10 fit gradients are switched off only by components whose value is stationary under the fit (squared deviations)
 R9  a quadratic energy and the force terms next to it share the prefactor
@@ -1257,7 +1258,55 @@ def r13(F, rep):
         raise AnalysisBroken("C01-R13: only %d targets assigned on both sides of a scalar/non-scalar dispatch found" % n)
 
 
+def r14(F, rep):
+    rep.rule("C01-R14", "value and derivative of a helper belong to the same evaluation: in a class with a parameterless compute() "
+                        "and const accessors that return members, every such member that compute() writes at all is written on "
+                        "every path that has written another one (no way from a write of A to the exit that avoids all writes "
+                        "of B, unless B was already written) -- an `allocate once` test around one of them leaves the gradient of "
+                        "the first evaluation next to the value of the current one")
+    from .rules_c10 import member_root
+    n = 0
+    by = {}
+    for f in F.funcs.values():
+        if "/src/" in f.file and f.body is not None and f.cls:
+            by.setdefault(f.cls, []).append(f)
+    for cls, fs in sorted(by.items()):
+        comp = [f for f in fs if f.name == "compute" and not f.params and f.cfg.ok]
+        if not comp:
+            continue
+        visible = set()
+        for g in fs:
+            if g.const and g.name not in ("compute",) and g.body is not None:
+                rets = [x for x in g.walk() if x["k"] == "ReturnStmt"]
+                for r in rets:
+                    for y in g.walk(r):
+                        if y["k"] == "MemberExpr" and y.get("dk") == "Field" and X.kids(y) and X.strip(X.kids(y)[0])["k"] == "CXXThisExpr":
+                            visible.add(y["q"])
+        for f in comp:
+            ws = {}
+            for w, t in lvalue_writes(f):
+                mr = member_root(t)
+                if mr is not None and mr["q"] in visible:
+                    ws.setdefault(mr["q"], []).append(w)
+            if len(ws) < 2:
+                continue
+            for A in sorted(ws):
+                for B in sorted(ws):
+                    if A == B:
+                        continue
+                    n += 1
+                    bad = [wa for wa in ws[A] if not any(f.cfg.dominates(wb, wa) for wb in ws[B]) and f.cfg.exits_from(wa, avoiding=ws[B])]
+                    rep.add("C01-R14", "%s|%s|%s" % (f.q, A.split("::")[-1], B.split("::")[-1]), f.loc(bad[0]) if bad else f.loc(),
+                            "%s: after `%s` is written, `%s` %s" % (f.q, A.split("::")[-1], B.split("::")[-1],
+                                                                    "is written on every way to the exit" if not bad else "can stay as it was (a path to the exit avoids every write of it)"), not bad,
+                            detail="the accessors then return a value of this evaluation and a derivative of an earlier one: the forces are not the "
+                                   "gradient of the reported energy", func=f.q)
+    if n < 2:
+        raise AnalysisBroken("C01-R14: only %d (value, derivative) member pairs found in helper classes with compute()" % n)
+
+
 def run(F, rep, tier):
+    r14(F, rep)
     r13(F, rep)
     r12(F, rep)
     r11(F, rep)
